@@ -99,6 +99,11 @@ class Waiting(process_states.Waiting):
         key = self._awaiting.pop(awaitable)
         try:
             self.process.ctx[key] = awaitable.result()  # type: ignore
+        except asyncio.CancelledError:
+            # A cancelled awaitable is a failed one. This is not an ``Exception``, so it has to be caught explicitly,
+            # and it cannot be passed on as it is: raised out of the waiting state it would cancel the stepping task
+            exception = kiwipy.CancelledError(f"the awaitable assigned to '{key}' was cancelled")
+            self._waiting_future.set_exception(exception)
         except Exception as exception:
             self._waiting_future.set_exception(exception)
         else:
